@@ -111,6 +111,8 @@ func validatorSources() []vsrc {
 		{"Validate (pointer receiver) on named int64 derived from Duration", ptd("cat:c04_pd"), tvI(5), tvI(-5), num(2), num(-2)},
 		{"Validate (pointer receiver) on named slice", ptd("cat:c04_pl"), tvS(tvI(1)), tvS(tvI(1), tvI(-1)), gen.List(num(1)), gen.List(num(1), num(-5))},
 		{"Validate (pointer receiver) on named map", ptd("cat:c04_pm"), tvMap("k", tvI(1)), tvMap("k", tvI(-1)), objOf("j", num(1)), objOf("j", num(-1))},
+		{"Validate (pointer receiver) on named array", ptd("cat:c04_pa"), tvS(tvI(1), tvI(1)), tvS(tvI(1), tvI(-1)), gen.List(num(1), num(2)), gen.List(num(1), num(-5))},
+		{"Validate (value receiver) on named array", ptd("cat:c04_va"), tvS(tvI(1), tvI(1)), tvS(tvI(1), tvI(-1)), gen.List(num(1), num(2)), gen.List(num(1), num(-5))},
 		{"Validate (value receiver) on named uint", ptd("cat:c04_vu"), &gen.TV{U: 7}, &gen.TV{U: 101}, num(100), num(101)},
 		{"Validate (value receiver) on named float", ptd("cat:c04_vf"), &gen.TV{F: "0x1.8p+00"}, &gen.TV{F: "-0x1p-01"}, gen.Float(0.5), gen.Float(-0.5)},
 		{"Validate (value receiver) on named string", ptd("cat:c04_vt"), &gen.TV{S: "x"}, &gen.TV{S: "bad"}, gen.Str("x y"), gen.Str("a")},
